@@ -38,7 +38,10 @@ class Proto(Scenario):
     margin = Fraction(1, 10**9)
     concrete_tol = 1e-9
 
-    def __init__(self, kind, durations, mode, npts=0, relative=False, continued=False, swap=False, per_step=1, edit_before=False):
+    def __init__(self, kind, durations, mode, npts=0, relative=False, continued=False, swap=False, per_step=1, edit_before=False,
+                 edit_after=False, grid_array=False):
+        self.edit_after = edit_after  # the model's parameters are changed by hand after the protocol ran and before its fluxes are first read
+        self.grid_array = grid_array  # the requested grid is passed as an ndarray, which must come back as it was passed
         self.edit_before = edit_before  # a manual parameter change between the earlier simulation and the protocol
         self.kind = kind
         self.durations = tuple(durations)
@@ -50,7 +53,8 @@ class Proto(Scenario):
         self.per_step = per_step
         d = "_".join(str(x) for x in durations)
         self.key = (f"C14/{kind}/{mode}/d{d}/n{npts}{'r' if relative else 'a'}/"
-                    f"{'cont' if continued else 'fresh'}{'/swap' if swap else ''}{f'/s{per_step}' if mode == 'P' else ''}{'/edit' if edit_before else ''}")
+                    f"{'cont' if continued else 'fresh'}{'/swap' if swap else ''}{f'/s{per_step}' if mode == 'P' else ''}{'/edit' if edit_before else ''}"
+                    f"{'/edit-after' if edit_after else ''}{'/grid-array' if grid_array else ''}")
 
     def run(self, ctx):
         import mxlpy.integrators.int_scipy as isc
@@ -130,8 +134,11 @@ class Proto(Scenario):
             req = [ctx.real(f"q{j}") for j in range(self.npts)]
             for a, b in zip(req, req[1:]):
                 ctx.assume(a < b)
+            import numpy as _np
+
+            grid = _np.array(list(req), dtype=object if sym else float) if self.grid_array else list(req)
             try:
-                sim.simulate_protocol_time_course(protocol, list(req), time_points_as_relative=self.relative)
+                sim.simulate_protocol_time_course(protocol, grid, time_points_as_relative=self.relative)
                 raised = False
             except ValueError as e:
                 raised = True
@@ -139,6 +146,9 @@ class Proto(Scenario):
             except Exception as e:  # noqa: BLE001
                 ctx.fail(f"simulate_protocol_time_course: raised {type(e).__name__}", info=str(e)[:200])
             absreq = [q + t_start for q in req] if self.relative else list(req)
+            if self.grid_array:
+                for j, q in enumerate(req):
+                    ctx.eq(f"the caller's grid still holds requested point {j} (a reused grid is the same request)", grid[j], q)
             ctx.true("refused exactly when the last requested point <= start", (absreq[-1] <= t_start) if raised else (absreq[-1] > t_start))
             if raised:
                 compare_result(ctx, sim, started, rows, segp, names)
@@ -159,6 +169,10 @@ class Proto(Scenario):
                 lo = hi
                 segp.append(p)
         compare_result(ctx, sim, started, rows, segp, names)
+        if self.edit_after:
+            with ctx.impl("update_parameter on the model after the protocol"):
+                for pn_ in pnames:
+                    m.update_parameter(pn_, ctx.real(f"late_{pn_}"))
         # fluxes reported inside a step use that step's values
         if sim.variables is not None and sum(len(f) for f in sim.variables) == len(rows):
             with ctx.impl("fluxes"):
@@ -167,6 +181,8 @@ class Proto(Scenario):
                 for j, ((t, y), p) in enumerate(zip(rows, seg_of_row)):
                     for fn_, val in fluxes_of(self.kind, p, y).items():
                         ctx.eq(f"flux[{j},{fn_}] uses the values of its step", fl[fn_].iloc[j], val)
+        if self.edit_after:
+            return
         # the model is left with the last step's values
         last = {k: steps[-1][1][k] for k in steps[-1][1]}
         with ctx.impl("parameters after protocol"):
@@ -196,6 +212,9 @@ def scenarios(tier, seed):
                     scs.append(Proto("decay", lay, "TC", npts=npts, relative=rel, continued=cont))
             scs.append(Proto("chain", lay, "TC", npts=1, relative=cont, continued=cont, swap=True))
         if len(lay) <= 2:
+            scs.append(Proto("decay", lay, "P", continued=False, per_step=1, edit_after=True))
+            scs.append(Proto("decay", lay, "TC", npts=1, relative=True, continued=True, edit_after=True, grid_array=True))
+            scs.append(Proto("decay", lay, "TC", npts=2, relative=True, continued=True, grid_array=True))
             scs.append(Proto("decay", lay, "P", continued=True, per_step=1, edit_before=True))
             scs.append(Proto("decay", lay, "TC", npts=1, relative=False, continued=True, edit_before=True))
     return scs
